@@ -4,11 +4,15 @@ package main
 // tells them to return or to panic, so the harness decides the interleaving of arrivals and
 // completions of several sources.
 //
-// cfg: [max]
+// cfg: [max] or [max 1] (1: the limiter is built without a handler, connlimit.New(nil, ...), and gets one at the first
+//      Wrap op: an arrival before that is admitted, fails in the missing handler (a panic, status -1) and must give its
+//      slot back)
 // ops: [0 tok amount] Arrive -> obs [status, concurrency of the source seen inside the handler (0 when rejected)]
 //      [1 tok amount mode] Finish of one in-flight request of (tok, amount) -> obs []; mode 0 return, 1 panic,
 //          2/3 the same after the handler rewrote the request fields the extractor reads (as a proxy stripping
 //          credentials does): the slot must still go back to the source it was taken from
+//      [5 tok amount] the context of one in-flight request of (tok, amount) is cancelled; its handler keeps running and
+//          the request keeps its slot until it finishes -> obs []
 //      [4] Wrap: the protected handler is exchanged (for an equivalent one) while requests may be in flight -> obs []
 //      [2] request whose source cannot be extracted -> obs [status]
 // Monitors: C04 (bound, reject-iff-full, slot returned on return and on panic), C14 (connection half:
@@ -47,6 +51,8 @@ type clReq struct {
 	tok, amount int64
 	release     chan int // 0 return, 1 panic, 2 rewrite the request then return, 3 rewrite then panic
 	done        chan int // status written by ServeHTTP (or -1 when it panicked)
+	cancel      func()   // cancels the request's context
+	cancelled   bool
 }
 
 type clRunner struct {
@@ -57,7 +63,7 @@ type clRunner struct {
 	handler func() http.Handler
 }
 
-func newCLRunner(max int64) (*clRunner, error) {
+func newCLRunner(max int64, lateWrap bool) (*clRunner, error) {
 	r := &clRunner{seen: map[int64]int64{}, entered: make(chan int64, 1)}
 	r.handler = func() http.Handler {
 		return http.HandlerFunc(func(w http.ResponseWriter, req *http.Request) {
@@ -97,7 +103,11 @@ func newCLRunner(max int64) (*clRunner, error) {
 		amount, _ := strconv.ParseInt(req.Header.Get("X-Amount"), 10, 64)
 		return s, amount, nil
 	})
-	cl, err := connlimit.New(r.handler(), extract, max)
+	var first http.Handler
+	if !lateWrap {
+		first = r.handler()
+	}
+	cl, err := connlimit.New(first, extract, max)
 	if err != nil {
 		return nil, err
 	}
@@ -115,7 +125,9 @@ func (r *clRunner) arrive(tok, amount int64) (status int64, seen int64, rq *clRe
 		req.Header.Set("X-Source", srcName(tok))
 	}
 	req.Header.Set("X-Amount", strconv.FormatInt(amount, 10))
-	req = req.WithContext(contextWith(req, rq.release))
+	ctx, cancel := context.WithCancel(contextWith(req, rq.release))
+	rq.cancel = cancel
+	req = req.WithContext(ctx)
 	rec := httptest.NewRecorder()
 	go func() {
 		defer func() {
@@ -228,9 +240,23 @@ func (c *connlimitComp) Gen(rng *rand.Rand, idx int, tier string, targeted bool)
 	if tier == "thorough" {
 		nops = 20 + rng.Intn(200)
 	}
+	if !targeted && rng.Intn(8) == 0 {
+		// the limiter is built without a handler; requests arrive; then it is given one
+		h.Cfg = append(h.Cfg, 1)
+		for k := 0; k < 1+rng.Intn(6); k++ {
+			if rng.Intn(8) == 0 {
+				h.Ops = append(h.Ops, []int64{2})
+			} else {
+				h.Ops = append(h.Ops, []int64{0, int64(rng.Intn(nsrc)), 1})
+			}
+		}
+		h.Ops = append(h.Ops, []int64{4})
+		hlib.Count("limiters_wrapped_after_requests", 1)
+	}
 	unit := rng.Intn(4) != 0 || targeted // most histories use amount 1, as every built-in extractor does
 	type fl struct{ tok, amount int64 }
 	var inflight []fl
+	cancelled := map[fl]bool{} // at most one cancellation per (source, amount) pair in flight: the harness picks any such request
 	cur := map[int64]int64{}
 	for i := 0; i < nops; i++ {
 		r := rng.Intn(100)
@@ -239,6 +265,12 @@ func (c *connlimitComp) Gen(rng *rand.Rand, idx int, tier string, targeted bool)
 			h.Ops = append(h.Ops, []int64{2})
 		case r >= 97:
 			h.Ops = append(h.Ops, []int64{4})
+		case r >= 90 && len(inflight) > 0:
+			f := inflight[rng.Intn(len(inflight))]
+			if !cancelled[f] {
+				cancelled[f] = true
+				h.Ops = append(h.Ops, []int64{5, f.tok, f.amount})
+			}
 		case r < 9 || (targeted && r < 30):
 			h.Ops = append(h.Ops, []int64{3, int64(rng.Intn(nsrc)), int64(2 + rng.Intn(14))})
 		case r < 60 || len(inflight) == 0:
@@ -286,11 +318,13 @@ func finishMode(rng *rand.Rand) int64 {
 }
 
 func (c *connlimitComp) Run(h *hlib.History) ([]hlib.Mon, bool) {
-	if len(h.Cfg) != 1 {
+	if len(h.Cfg) != 1 && !(len(h.Cfg) == 2 && h.Cfg[1] == 1) {
 		return nil, false
 	}
 	max := h.Cfg[0]
-	r, err := newCLRunner(max)
+	lateWrap := len(h.Cfg) == 2
+	wrapped := !lateWrap
+	r, err := newCLRunner(max, lateWrap)
 	if err != nil {
 		return nil, false
 	}
@@ -301,7 +335,51 @@ func (c *connlimitComp) Run(h *hlib.History) ([]hlib.Mon, bool) {
 	unit := true
 	decisions := map[int64][]int64{} // per-source decision sequence (for C14)
 	for step, op := range h.Ops {
+		if !wrapped && !(len(op) == 1 && (op[0] == 2 || op[0] == 4)) && !(len(op) == 3 && op[0] == 0) {
+			for _, rq := range inflight {
+				r.finish(rq, 0)
+			}
+			return nil, false
+		}
 		switch {
+		case len(op) == 3 && op[0] == 0 && !wrapped:
+			// no handler yet: an admitted request fails in the nil handler (a panic) and its slot goes back
+			tok, amount := op[1], op[2]
+			if amount < 1 {
+				return nil, false
+			}
+			status, seen, rq := r.arrive(tok, amount)
+			h.Obs = append(h.Obs, []int64{status, seen})
+			decisions[tok] = append(decisions[tok], status)
+			want := int64(-1)
+			if 0 >= max {
+				want = 429
+			}
+			if status != want || rq != nil {
+				mons = append(mons, hlib.Mon{Prop: "C04", Step: step, Msg: fmt.Sprintf("arrival of source %d before the limiter has a handler (nothing in flight, max %d) ended with %d, expected %d (-1 = the call into the missing handler panics and the slot is released)", tok, max, status, want)})
+			}
+			if rq != nil {
+				r.finish(rq, 0)
+			}
+		case len(op) == 3 && op[0] == 5:
+			tok, amount := op[1], op[2]
+			k := -1
+			for i, rq := range inflight {
+				if rq.tok == tok && rq.amount == amount && !rq.cancelled {
+					k = i
+					break
+				}
+			}
+			if k < 0 {
+				for _, rq := range inflight {
+					r.finish(rq, 0)
+				}
+				return nil, false
+			}
+			inflight[k].cancelled = true
+			inflight[k].cancel()
+			time.Sleep(2 * time.Millisecond) // whatever reacts to the cancellation has had time to do so
+			h.Obs = append(h.Obs, []int64{})
 		case len(op) == 3 && op[0] == 0:
 			tok, amount := op[1], op[2]
 			if amount < 1 {
@@ -401,6 +479,7 @@ func (c *connlimitComp) Run(h *hlib.History) ([]hlib.Mon, bool) {
 			}
 		case len(op) == 1 && op[0] == 4:
 			r.cl.Wrap(r.handler())
+			wrapped = true
 			h.Obs = append(h.Obs, []int64{})
 		case len(op) == 1 && op[0] == 2:
 			status, _, rq := r.arrive(-1, 1)
@@ -438,14 +517,18 @@ func (c *connlimitComp) Run(h *hlib.History) ([]hlib.Mon, bool) {
 
 // solo replays only the ops of one source on a fresh limiter.
 func (c *connlimitComp) solo(h *hlib.History, tok int64) ([]int64, bool) {
-	r, err := newCLRunner(h.Cfg[0])
+	r, err := newCLRunner(h.Cfg[0], len(h.Cfg) == 2)
 	if err != nil {
 		return nil, false
 	}
 	var inflight []*clReq
 	var out []int64
 	for _, op := range h.Ops {
-		if len(op) < 3 || op[1] != tok || op[0] == 3 || op[0] == 4 {
+		if len(op) == 1 && op[0] == 4 && len(h.Cfg) == 2 {
+			r.cl.Wrap(r.handler())
+			continue
+		}
+		if len(op) < 3 || op[1] != tok || op[0] == 3 || op[0] == 4 || op[0] == 5 {
 			continue
 		}
 		if op[0] == 0 {
@@ -483,6 +566,8 @@ func (c *connlimitComp) Describe(h *hlib.History) interface{} {
 			s = "Wrap(equivalent handler)"
 		case 3:
 			s = fmt.Sprintf("Burst(src=%d,k=%d)", op[1], op[2])
+		case 5:
+			s = fmt.Sprintf("CancelContext(in-flight request of src=%d,amount=%d)", op[1], op[2])
 		default:
 			s = "NoSource"
 		}
@@ -491,7 +576,7 @@ func (c *connlimitComp) Describe(h *hlib.History) interface{} {
 		}
 		ops = append(ops, s)
 	}
-	return map[string]interface{}{"max": h.Cfg[0], "ops": ops}
+	return map[string]interface{}{"max": h.Cfg[0], "builtWithoutHandlerWrappedLater": len(h.Cfg) == 2, "ops": ops}
 }
 
 func (c *connlimitComp) Nontrivial(h *hlib.History) string {
